@@ -85,6 +85,11 @@ CHECKS = {
         technique="fault-family exploration at scripted protocol points of the real stack: every element of a structured attacker family (forged plaintext+CRC over all types x counts x inner types, all bit flips/truncations/extensions/header rewrites of genuine unreceived datagrams, wrong-key and foreign-session ciphertext) injected through the real entry points with complete before/after state snapshots; positive control with the genuine datagrams",
         text="9 protocol points (client: connecting, idle, busy with pending sends+half-received fragment, disconnected; server: new address, temp pool, idle, busy, after disconnect) x 5.2e4 (quick) / 1.2e5 (thorough) structured injections via UdpClient.update and TwistedServer.datagramReceived + the real server loop; any change of key, status, liveness clock, windows, pending acks/callbacks/retries, delivered messages, pools, handler events or bytes sent is a violation; genuine datagrams must still be accepted afterwards.",
         note="single injections (no pairs); cryptographic strength of AES-GCM assumed; random-bytes supplement (8640, seeded) listed separately and not part of the exhaustive claim"),
+    "C02": dict(
+        engine="mcx", category="model_checking", design="5/C02",
+        technique="man-in-the-middle exploration of the real handshake: one fresh real handshake per substitution (every byte position x xor masks x CRC fix-up of all three datagrams; field-level forgeries from attacker keys and another honest session; wrong-token challenge responses), plus deviation-bounded exploration (<=2/3 of drop/dup/delay) of one and two concurrent handshakes with cross-delivery; oracles recompute signature verification, ECDH+HKDF and AES-GCM with the cryptography primitives directly",
+        text="2.1e3 (quick) / 3.2e3 byte mutants, 123 forgeries, 2.7e3 (quick) schedule executions. (a) a client with a key or CONNECTED must have processed a hello whose payload verifies under the pinned key and whose parameters it adopted exactly; (b) honest runs agree on one 16-byte key and token; (c) every connect event is preceded by a datagram from that address that decrypts under the connection's key and carries the issued token.",
+        note="cryptographic primitives trusted; <=2 (quick) / 3 deviations in the schedule part; replay of a genuinely signed hello of another session is allowed by the statement"),
 }
 
 NOT_YET = {
